@@ -179,15 +179,18 @@ def decompress(filename, tmpdir=None, target=None):
         yield filename
         return
 
+    # Read datafile in 100 MiB chunks for good performance/memory usage
+    chunksize = 100 * 1024 * 1024
+    compfile = get_compressor(fmt)
+
     if target is None:
         tmpfile = tempfile.NamedTemporaryFile(dir=tmpdir, delete=False)
     else:
         # The user has a own name for the temporary file:
         tmpfile = open(target, "wb")
 
-    # Read datafile in 100 MiB chunks for good performance/memory usage
-    chunksize = 100 * 1024 * 1024
-    compfile = get_compressor(fmt)
+    # Nothing may happen between creating the temporary file and entering the
+    # try block that removes it again.
     try:
         if fmt == 'zip':
             shutil.copyfileobj(compfile(filename, 'r').open(filebase, 'r'),
